@@ -4,6 +4,7 @@ import (
 	"fmt"
 	"go/token"
 	"go/types"
+	"strings"
 
 	"golang.org/x/tools/go/ssa"
 
@@ -36,6 +37,22 @@ func init() {
 			}},
 			{Name: "origin announces its presence at distance one", ExpectRule: "C13.R3", ExpectKey: "AnnounceLocalRoutes", Edits: []Edit{
 				{File: "internal/flood/flood.go", Old: "\t\tPrefix:        protocol.EncodeAgentPrefix(f.localID),\n\t\tMetric:        0,", New: "\t\tPrefix:        protocol.EncodeAgentPrefix(f.localID),\n\t\tMetric:        1,"},
+			}},
+			{Name: "forwarded metric taken from a best-route lookup (seed C13-a)", ExpectRule: "C13.R2", ExpectKey: "forwarded Metric write", Edits: []Edit{
+				{File: "internal/flood/flood.go", Old: "\t\tr.Metric++\n\t\tfwdRoutes[i] = r\n", New: "\t\tr.Metric = f.recordedMetric(r)\n\t\tfwdRoutes[i] = r\n"},
+				{File: "internal/flood/flood.go", Old: "// floodWithdrawal sends a route withdrawal to all peers except the source.", New: "func (f *Flooder) recordedMetric(r protocol.Route) uint16 {\n\tif r.AddressFamily == protocol.AddrFamilyAgent {\n\t\tif ar := f.routeMgr.LookupAgent(protocol.DecodeAgentPrefix(r.Prefix)); ar != nil {\n\t\t\treturn ar.Metric\n\t\t}\n\t}\n\treturn r.Metric + 1\n}\n\n// floodWithdrawal sends a route withdrawal to all peers except the source."},
+			}},
+			{Name: "forwarded metric reset to one for presence routes", ExpectRule: "C13.R2", ExpectKey: "forwarded Metric write", Edits: []Edit{
+				{File: "internal/flood/flood.go", Old: "\t\tr.Metric++\n\t\tfwdRoutes[i] = r\n", New: "\t\tr.Metric++\n\t\tif r.AddressFamily == protocol.AddrFamilyAgent {\n\t\t\tr.Metric = 1\n\t\t}\n\t\tfwdRoutes[i] = r\n"},
+			}},
+			{Name: "forwarded metric derived from the number of routes", ExpectRule: "C13.R2", ExpectKey: "forwarded Metric write", Edits: []Edit{
+				{File: "internal/flood/flood.go", Old: "\t\tr.Metric++\n\t\tfwdRoutes[i] = r\n", New: "\t\tr.Metric = uint16(len(routes))\n\t\tfwdRoutes[i] = r\n"},
+			}},
+			{Name: "CIDR entry refreshed in place through the same next hop keeps its path (seeds C13-b, C15-b)", ExpectRule: "C13.R4", ExpectKey: "(*routing.Table).AddRoute", Edits: []Edit{
+				{File: "internal/routing/table.go", Old: "\t\t\t\tcloned := route.Clone()\n\t\t\t\tcloned.LastUpdate = now\n\t\t\t\tt.routes[key][i] = cloned\n", New: "\t\t\t\tif r.NextHop == route.NextHop {\n\t\t\t\t\tr.Sequence = route.Sequence\n\t\t\t\t\tr.Metric = route.Metric\n\t\t\t\t\tr.LastUpdate = now\n\t\t\t\t} else {\n\t\t\t\t\tcloned := route.Clone()\n\t\t\t\t\tcloned.LastUpdate = now\n\t\t\t\t\tt.routes[key][i] = cloned\n\t\t\t\t}\n"},
+			}},
+			{Name: "forward entry: better metric adopted in place, path and next hop kept", ExpectRule: "C13.R4", ExpectKey: "(*routing.ForwardTable).AddRoute", Edits: []Edit{
+				{File: "internal/routing/forward.go", Old: "\t\t\t\tcloned := route.Clone()\n\t\t\t\tcloned.LastUpdate = time.Now()\n\t\t\t\tt.routes[key][i] = cloned\n", New: "\t\t\t\t_ = i\n\t\t\t\tr.Metric = route.Metric\n"},
 			}},
 			{Name: "rewrite: forwarded routes built with append and an explicit +1", Edits: []Edit{
 				{File: "internal/flood/flood.go", Old: "\tfwdRoutes := make([]protocol.Route, len(routes))\n\tfor i, r := range routes {\n\t\tr.Metric++\n\t\tfwdRoutes[i] = r\n\t}\n", New: "\tvar fwdRoutes []protocol.Route\n\tfor _, r := range routes {\n\t\tfwdRoutes = append(fwdRoutes, protocol.Route{AddressFamily: r.AddressFamily, PrefixLength: r.PrefixLength, Prefix: r.Prefix, Metric: 1 + r.Metric})\n\t}\n"},
@@ -126,6 +143,69 @@ func c13IsIncrement(v ssa.Value) bool {
 	return false
 }
 
+// c13IsWireIncrement: v is <Metric of a protocol.Route> + k, k >= 1 constant.
+func c13IsWireIncrement(v ssa.Value) bool {
+	b, ok := c13Strip(v).(*ssa.BinOp)
+	if !ok || b.Op != token.ADD {
+		return false
+	}
+	wire := func(x ssa.Value) bool {
+		f, base := kit.LoadedField(c13Strip(x))
+		if f == nil || f.Name() != "Metric" {
+			return false
+		}
+		n := c11NamedIn(base.Type(), "internal/protocol")
+		return n != nil && n.Obj().Name() == "Route"
+	}
+	if k, isc := kit.ConstInt(b.Y); isc && k >= 1 && wire(b.X) {
+		return true
+	}
+	if k, isc := kit.ConstInt(b.X); isc && k >= 1 && wire(b.Y) {
+		return true
+	}
+	return false
+}
+
+// c13Describe renders a value for a diagnosis: field loads as Type.Field.
+func c13Describe(v ssa.Value) string {
+	if f, base := kit.LoadedField(c13Strip(v)); f != nil {
+		if n := c11NamedOf(base.Type()); n != nil {
+			return "the " + f.Name() + " of a " + n.Obj().Pkg().Name() + "." + n.Obj().Name()
+		}
+	}
+	return c12Short(v)
+}
+
+// c13Alts expands a value through phis and through the returns of single-result flood helpers.
+func c13Alts(v ssa.Value, depth int) []ssa.Value {
+	if depth > 5 {
+		return []ssa.Value{v}
+	}
+	switch x := c13Strip(v).(type) {
+	case *ssa.Phi:
+		var out []ssa.Value
+		for _, e := range x.Edges {
+			if e == ssa.Value(x) {
+				continue
+			}
+			out = append(out, c13Alts(e, depth+1)...)
+		}
+		return out
+	case *ssa.Call:
+		cal := kit.CalleeOf(x)
+		if cal.Static != nil && cal.Static.Blocks != nil && kit.FuncPkgPath(cal.Static) == kit.PkgPath(c11FloodPkg) && cal.Static.Signature.Results().Len() == 1 {
+			var out []ssa.Value
+			for _, ret := range kit.Returns(cal.Static) {
+				if ret.Block() != cal.Static.Recover {
+					out = append(out, c13Alts(kit.ReturnResult(ret, 0), depth+1)...)
+				}
+			}
+			return out
+		}
+	}
+	return []ssa.Value{v}
+}
+
 // c13IsPathLen: v is len(x) of an agent-id list.
 func c13IsPathLen(cx *c11Flood, v ssa.Value) bool {
 	c, ok := c13Strip(v).(*ssa.Call)
@@ -135,6 +215,7 @@ func c13IsPathLen(cx *c11Flood, v ssa.Value) bool {
 func runC13(p *kit.Program, r *kit.Report) {
 	r.Rule("C13.R1", "every route record built from a received announcement stores the received metric plus a constant k>=1 (or the path length)")
 	r.Rule("C13.R2", "the routes of a forwarded RouteAdvertise carry a Metric that was incremented by a constant k>=1 for the hop just taken (unless receivers derive the metric from the path length)")
+	r.Rule("C13.R4", "a stored route record is never refreshed in place with the Metric of a newer advertisement while Path/EncPath keep the older one (Metric, Sequence, Path, EncPath, NextHop change together)")
 	r.Rule("C13.R3", "full-table replays and origin announcements send the stored Metric field unmodified (constant 0 for the origin's own presence)")
 	cx := newC11Flood(p, r)
 	if cx == nil {
@@ -212,6 +293,65 @@ func runC13(p *kit.Program, r *kit.Report) {
 	r.Count("forwarded_route_advertise_literals", nFwd)
 	r.Require(nFwd >= 1, "floor: no forwarded RouteAdvertise literal found")
 
+	// R2 (provenance): every Metric written into a protocol.Route on the forwarding chain is the
+	// received (wire) metric plus a constant — at every alternative (phi edges, returns of helpers)
+	fwdScope := map[*ssa.Function]bool{}
+	var fwork []*ssa.Function
+	for _, h := range cx.handlers {
+		for _, la := range c11ForwardedLits(cx, h) {
+			if la.lit.typ.Obj().Name() == "RouteAdvertise" && !fwdScope[la.lit.fn] {
+				fwdScope[la.lit.fn] = true
+				fwork = append(fwork, la.lit.fn)
+			}
+		}
+	}
+	for len(fwork) > 0 {
+		fn := fwork[len(fwork)-1]
+		fwork = fwork[:len(fwork)-1]
+		for _, c := range kit.Calls(fn) {
+			cal := kit.CalleeOf(c)
+			if cal.Static != nil && cal.Static.Blocks != nil && !fwdScope[cal.Static] && kit.FuncPkgPath(cal.Static) == kit.PkgPath(c11FloodPkg) {
+				fwdScope[cal.Static] = true
+				fwork = append(fwork, cal.Static)
+			}
+		}
+	}
+	nMW := 0
+	for _, fn := range cx.fns {
+		if !fwdScope[fn] {
+			continue
+		}
+		ord := 0
+		kit.Instrs(fn, func(in ssa.Instruction) {
+			st, ok := in.(*ssa.Store)
+			if !ok {
+				return
+			}
+			fa, ok := st.Addr.(*ssa.FieldAddr)
+			if !ok {
+				return
+			}
+			f := kit.FieldOfAddr(fa)
+			n := c11NamedIn(fa.X.Type(), "internal/protocol")
+			if f == nil || f.Name() != "Metric" || n == nil || n.Obj().Name() != "Route" {
+				return
+			}
+			ord++
+			nMW++
+			var bad []string
+			for _, alt := range c13Alts(st.Val, 0) {
+				if !c13IsWireIncrement(alt) && !c13IsPathLen(cx, alt) {
+					bad = append(bad, c13Describe(alt))
+				}
+			}
+			bad = c12Uniq(bad)
+			r.Decide(len(bad) == 0, "C13.R2", fmt.Sprintf("%s forwarded Metric write #%d", kit.FuncName(fn), ord), p.Pos(st.Pos()),
+				"the forwarded metric is the received metric plus a constant at every source",
+				"a forwarded route's metric can also be "+strings.Join(bad, " / ")+", which is not the received metric of this advertisement plus one hop (e.g. the metric of whatever entry a table lookup returns): the path forwarded is this advertisement's path, so downstream agents record a metric that is not the hop count of the recorded path")
+		})
+	}
+	r.Count("forwarded_metric_writes", nMW)
+
 	// ---------------- R3: protocol.Route literals outside the forwarding path
 	nOrig := 0
 	ords := map[string]int{}
@@ -283,4 +423,7 @@ func runC13(p *kit.Program, r *kit.Report) {
 	}
 	r.Count("origin_or_replay_route_literals", nOrig)
 	r.Require(nOrig >= 3, "floor: %d protocol.Route literals found in announce/replay code, expected at least 3", nOrig)
+
+	// ---------------- R4
+	g4ReportInPlace(p, r, "C13.R4", "the entry then carries the new advertisement's metric with the old advertisement's path, so the recorded metric is no longer the hop count along the recorded path (and replays send that mismatch on)")
 }
